@@ -424,20 +424,76 @@ theorem summarize_ratio_spec {tr : Transc} {extra : List RuleEntry} {t out : Lis
   rw [hget]
   exact ⟨h1, h2⟩
 
--- OPEN spec_metaOk
--- theorem spec_metaOk (h : summarize tr extra t prem = .ok out) (hn : every details dict has distinct keys) :
---     Spec.C09.metaOk t out = true
--- (the Prop version is `gcd_keeps_exactly_shared` + `summarize_cell_spec` (`metadataGcd t = .ok o.md`); the
---  Bool bridge through `attrShared` / `detailsShared` is not written.)
--- OPEN spec_keysOk
--- theorem spec_keysOk (h : summarize tr extra t prem = .ok out) (hn : every values dict has distinct keys) :
---     Spec.C09.keysOk t out = true
--- (an output cell carries exactly the union of the field names of its group: follows from `smMapE_keys` and
---  `mem_valueKeys`; the Bool bridge is not written.)
--- OPEN spec_ratioOk
--- theorem spec_ratioOk : Spec.C09.ratioOk tol "reported_loss" ratioFields t out = true
--- (the exact statement is `summarize_ratio_spec`; the Spec compares within a tolerance because the implementation
---  computes in floats — bridge not written.)
+/-! ### 7b. the remaining Spec bridges -/
+
+
+/-- `Spec.keysOk` is true on the model's output -/
+theorem spec_keysOk {tr : Transc} {extra : List RuleEntry} {t out : List Cell} {prem : Bool}
+    (h : summarize tr extra t prem = .ok out) : keysOk t out = true := by
+  simp only [keysOk, List.all_eq_true, Bool.and_eq_true]
+  intro o ho
+  obtain ⟨hvals, _⟩ := summarize_out_cell h ho
+  have hperm := summarizeCellValues_keys_perm hvals
+  refine ⟨⟨nodupB_of_nodup (hperm.nodup_iff.mpr (nodup_smDedup _)), ?_⟩, ?_⟩
+  · intro k hk
+    obtain ⟨c, hc, hkc⟩ := mem_valueKeys.mp (hperm.mem_iff.mp hk)
+    exact List.any_eq_true.mpr ⟨c, hc, (Dict.contains_iff _ _).mpr hkc⟩
+  · intro c hc k hk
+    exact (Dict.contains_iff _ _).mpr (hperm.mem_iff.mpr (mem_valueKeys.mpr ⟨c, hc, hk⟩))
+
+/-- `Spec.metaOk` is true on the model's output (details dicts have distinct keys, as Python dicts do) -/
+theorem spec_metaOk {tr : Transc} {extra : List RuleEntry} {t out : List Cell} {prem : Bool}
+    (h : summarize tr extra t prem = .ok out)
+    (hn : ∀ c ∈ t, c.md.details.keys.Nodup ∧ c.md.lossDetails.keys.Nodup) : metaOk t out = true := by
+  simp only [metaOk, List.all_eq_true]
+  intro o ho
+  have hmd := ((summarize_cell_spec h).2 o ho).1
+  obtain ⟨h1, h2, h3, h4, h5, h6, h7⟩ := gcd_keeps_exactly_shared hmd hn
+  obtain ⟨n1, n2⟩ := metadataGcd_keys_nodup hmd hn
+  simp only [mdShared, Bool.and_eq_true, List.all_eq_true, beq_iff_eq]
+  refine ⟨⟨⟨⟨⟨⟨fun c hc => h1 c hc, attrShared_of_iff h2⟩, attrShared_of_iff h3⟩, attrShared_of_iff h4⟩,
+    attrShared_of_iff h5⟩, ?_⟩, ?_⟩
+  · apply detailsShared_of_iff n1
+    intro k v; rw [h6]; simp [List.mem_map]
+  · apply detailsShared_of_iff n2
+    intro k v; rw [h7]; simp [List.mem_map]
+
+/-- the three ratio fields are lower-case and weighted by `reported_loss` (regenerated table) -/
+theorem ratio_lower : ∀ f ∈ ratioFields, lowerKey f = f ∧
+    ruleOf [] f = some ⟨.wavg, [f, "reported_loss"]⟩ := by decide +kernel
+
+/-- `Spec.ratioOk` is true on the model's output, for every non-negative tolerance -/
+theorem spec_ratioOk {tr : Transc} {t out : List Cell} {prem : Bool} {tol : Rat} (h0 : 0 ≤ tol)
+    (h : summarize tr [] t prem = .ok out) (hp : prem = true ∨ smIsIncremental t = true) :
+    ratioOk tol "reported_loss" ratioFields t out = true := by
+  simp only [ratioOk, List.all_eq_true]
+  intro o ho f hf
+  cases hany : (groupOf (smIsIncremental t) t o).any (fun c => c.values.contains f) with
+  | false => simp
+  | true =>
+    cases hw : (groupOf (smIsIncremental t) t o).all
+        (fun c => (c.getV f).isNone || !(c.getV "reported_loss").isNone) with
+    | false => simp
+    | true =>
+      simp only [Bool.not_true, Bool.false_or, List.all_eq_true]
+      intro i _
+      cases hr : (allInRange (groupOf (smIsIncremental t) t o) f i &&
+          allInRange (groupOf (smIsIncremental t) t o) "reported_loss" i && (o.getV f).inRange i) with
+      | false => simp
+      | true =>
+        simp only [Bool.and_eq_true] at hr
+        obtain ⟨c, hc, hcf⟩ := List.any_eq_true.mp hany
+        have hb := ratio_lower f hf
+        have := summarize_ratio_spec (i := i) (f := f) (w := "reported_loss") h hp
+          (by rw [hb.1]; exact hb.2) o ho ⟨c, hc, (Dict.contains_iff _ _).mp hcf⟩
+          (fun c' hc' => ⟨by simpa [allInRange, List.all_eq_true] using
+              (List.all_eq_true.mp hr.1.1) c' hc',
+            by simpa [allInRange, List.all_eq_true] using (List.all_eq_true.mp hr.1.2) c' hc'⟩)
+        simp only [Bool.not_true, Bool.false_or, Bool.or_eq_true]
+        right
+        rw [this.1]
+        exact closeTo_self h0
+
 
 /-! ### 8. non-vacuity -/
 
